@@ -132,14 +132,22 @@ func intOf(o ugo.Object) int64 {
 
 const (
 	spin = `for {}`
-	fin  = `x := 0; for i := 0; i < 3; i++ { x += i }; return x` // 3
-	fin2 = `return 7`
+	// endless loops without a single jump instruction: a self call in tail position re-uses its frame
+	spinTail = "var s\ns = func(n) { return s(n + 1) }\nreturn s(0)\n"
+	// ... and one made of calls and jumps (the loop body calls a function that loops a little itself)
+	spinCalls = "w := func() { for i := 0; i < 2; i++ { } }\nfor { w() }\n"
+	fin       = `x := 0; for i := 0; i < 3; i++ { x += i }; return x` // 3
+	fin2      = `return 7`
 )
 
 func scriptName(s string) string {
 	switch s {
 	case spin:
 		return "spin"
+	case spinTail:
+		return "spin-tail-calls"
+	case spinCalls:
+		return "spin-calls"
 	case fin:
 		return "loop3"
 	case fin2:
@@ -180,14 +188,17 @@ func wantOf(s string) int64 {
 func scenarios(thorough bool) []*scenario {
 	var out []*scenario
 	// root: one Run, 1-2 aborts, possibly from two threads
-	for _, s := range []string{spin, fin, fin2} {
+	for _, s := range []string{spin, fin, fin2, spinTail, spinCalls} {
 		for _, n := range []int{1, 2} {
 			s, n := s, n
+			if n == 2 && (s == spinTail || s == spinCalls) {
+				continue
+			}
 			bc := compile(s)
 			out = append(out, &scenario{
 				key:     fmt.Sprintf("root script=%s aborts=%d", scriptName(s), n),
 				desc:    "T1 vm.Run(script) || T2 vm.Abort() x n",
-				nonterm: []bool{s == spin}, want: []int64{wantOf(s)},
+				nonterm: []bool{s == spin || s == spinTail || s == spinCalls}, want: []int64{wantOf(s)},
 				body: func() {
 					vm := ugo.NewVM(bc)
 					vsched.Go("run", func() { runVM(vm, 0, nil) })
@@ -247,8 +258,8 @@ func scenarios(thorough bool) []*scenario {
 		s2 := "zero := 0\nh := func() { return 1 / zero }\nk := func() { return [h()] }\nk0 := func() { return [k()] }\ntry { k0() } catch e { return 7 }\nreturn 0\n"
 		bc1, bc2 := compile(s1), compile(s2)
 		out = append(out, &scenario{
-			key:  fmt.Sprintf("reuse-frames try depth=%d", depth),
-			desc: "T1 vm.Run(nested calls inside try, innermost spins); vm.SetBytecode(s2).Run(error thrown 3 calls deep, caught by main) || T2 vm.Abort()",
+			key:     fmt.Sprintf("reuse-frames try depth=%d", depth),
+			desc:    "T1 vm.Run(nested calls inside try, innermost spins); vm.SetBytecode(s2).Run(error thrown 3 calls deep, caught by main) || T2 vm.Abort()",
 			nonterm: []bool{true, false}, want: []int64{-1, 7},
 			body: func() {
 				vm := ugo.NewVM(bc1)
@@ -387,6 +398,57 @@ func scenarios(thorough bool) []*scenario {
 					runVM(vm, 1, nil, cb)
 				})
 				vsched.Go("abort", aborter(vm, 1))
+			},
+		})
+	}
+	// nested call-backs: the function run on a child VM calls back into Go, which runs another script function on a
+	// grandchild VM (pooled, released before the abort); the abort arrives while the child spins. Pooled VMs of the
+	// aborted run are met again by the later run - on the same VM, or on a VM that nobody ever aborted.
+	for _, otherVM := range []bool{false, true} {
+		otherVM := otherVM
+		bc1 := compile("param cb\ng := func() { return 1 }\nf := func() { cb(g); for {} }\ncb(f)\nreturn 7")
+		bc2 := compile("param cb\ng := func() { return 1 }\nf := func() { cb(g); return 1 }\ncb(f)\nreturn 7")
+		out = append(out, &scenario{
+			key:     fmt.Sprintf("nested-callbacks then a later run, other VM=%v", otherVM),
+			desc:    "T1 vm.Run(cb(f)), f on a child VM calls cb(g) (grandchild VM, released) and spins; then a second run with the same call-backs on the same or on a new VM || T2 vm.Abort()",
+			nonterm: []bool{true, false}, want: []int64{7, 7},
+			body: func() {
+				vm := ugo.NewVM(bc1)
+				// The aborting thread starts once the first inner call-back has returned and its VM is released: from
+				// then on at most one child VM is registered at a time (Abort walks a Go map of the registered
+				// children; with two entries its order would be a nondeterminism the scheduler does not own).
+				innerDone := make(chan struct{})
+				released := 0
+				depth := 0
+				var cb *ugo.Function
+				cb = &ugo.Function{Name: "cb", ValueEx: func(c ugo.Call) (ugo.Object, error) {
+					inv := ugo.NewInvoker(c.VM(), c.Get(0))
+					inv.Acquire()
+					depth++
+					_, err := inv.Invoke()
+					depth--
+					inv.Release()
+					if depth == 1 && released == 0 {
+						released = 1
+						vsched.Close(innerDone)
+					}
+					vsched.Note("invoke-ret", errCode(err))
+					return ugo.Undefined, err
+				}}
+				vsched.Go("run", func() {
+					runVM(vm, 0, nil, cb)
+					vm2 := vm
+					if otherVM {
+						vm2 = ugo.NewVM(bc2)
+					} else {
+						vm.SetBytecode(bc2)
+					}
+					runVM(vm2, 1, nil, cb)
+				})
+				vsched.Go("abort", func() {
+					vsched.Wait(innerDone)
+					aborter(vm, 1)()
+				})
 			},
 		})
 	}
@@ -886,12 +948,27 @@ type failure struct {
 	count       int64
 }
 
+// stuck reports a thread that runs without ever reaching a synchronisation operation - it cannot see an Abort, and it
+// cannot be stopped: the violation is made durable and the worker exits (the framework resumes behind the scenario).
+func stuck(c *fw.Ctx, s *scenario, e *vsched.Exec) {
+	c.Violation(s.key+" | stuck", fmt.Sprintf("abort-lost: thread %q ran for %s without a single synchronisation operation - the running VM never looks at its abort flag, no Abort can reach it", e.Stuck, vsched.StepTimeout),
+		map[string]any{"scenario": s.desc, "schedule": fmt.Sprint(e.Choices()), "events": e.Trace()})
+	c.Checkpoint()
+	os.Exit(98)
+}
+
 func explore(c *fw.Ctx, s *scenario, cfg vsched.Config, bound int) {
 	curScenario = s
 	defer func() { curScenario = nil }()
 	// determinism self-check: the default schedule twice
 	e1 := vsched.Run(cfg, nil, s.body)
+	if e1.Stuck != "" {
+		stuck(c, s, e1)
+	}
 	e2 := vsched.Run(cfg, e1.Choices(), s.body)
+	if e2.Stuck != "" {
+		stuck(c, s, e2)
+	}
 	if e1.Trace() != e2.Trace() || e1.Diverged != "" || e2.Diverged != "" {
 		c.Infra("scenario %q: replaying the default schedule gives a different event log (%s | %s)", s.key, e1.Diverged, e2.Diverged)
 		return
@@ -901,6 +978,9 @@ func explore(c *fw.Ctx, s *scenario, cfg vsched.Config, bound int) {
 	complete := true
 	nontriv := int64(0)
 	vsched.Explore(cfg, bound, s.body, func(e *vsched.Exec) bool {
+		if e.Stuck != "" {
+			stuck(c, s, e)
+		}
 		if e.Diverged != "" {
 			c.Infra("scenario %q: %s (schedule %v)", s.key, e.Diverged, e.Choices())
 			complete = false
